@@ -42,6 +42,43 @@ def derived_set(prog, eff, pa, root):
     return D, is_d
 
 
+def copy_subjects(prog, eff):
+    """the copy routine and every unit-internal helper it is split into (whatever they are called)"""
+    return ["cbor_copy"] + sorted(n for n in eff.transitive_callees("cbor_copy")
+                                  if n in prog.funcs and prog.funcs[n].internal and prog.funcs[n].unit == prog.fn("cbor_copy").unit)
+
+
+def check_total(chk, rule, prog, eff, cache, CS, floor=10):
+    SUBJECTS = copy_subjects(prog, eff)
+    SRC = ("arg", 0)
+    ntot = 0
+    for name in SUBJECTS:
+        f = prog.fn(name)
+        where = "%s:%d" % (f.file, f.line)
+        has_item = bool(f.params) and f.params[0]["type"].endswith("cbor_item_t*")
+        if not f.ret_type.endswith("*"):
+            continue    # predicates / bool helpers are judged where their result makes a pointer-returning routine give up (inlined)
+        for k, pa in enumerate(cache.get(name, inline_static=True)):
+            r = pa.ret
+            if r is None:
+                continue
+            gave_up = r == ("c", 0) or pa.st.known_null(r)
+            if not gave_up:
+                continue
+            if isinstance(r, tuple) and r[0] == "call":
+                continue   # the callee's own refusal handed on unchanged
+            ntot += 1
+            failed = [e for e in pa.events if e.kind == "call" and e.ckind in ("lib", "alloc") and e.res is not None and e.res != ("void",) and
+                      (pa.st.known_null(e.res) or pa.st.truth.get(e.res) is False or pa.st.eqc.get(e.res) == 0)]
+            outside = has_item and not CS.summary(f, pa, SRC)[0]
+            ok = bool(failed) or outside
+            chk.ob(rule, "%s path %d: gives up only after a callee failed" % (name, k), ok, where, fn=name, key="%s:total:%d" % (name, k),
+                   detail=("%s failed" % failed[0].callee) if failed else ("type outside the enumeration" if outside else
+                           "returns NULL / false although no allocation or insertion failed on this path: a well-formed tree is refused"),
+                   path=pa.block_lines() if not ok else None)
+    chk.floor(rule, "refusal paths of the copy routine", ntot, floor)
+
+
 def run(ctx, chk):
     prog = ctx.prog()
     eff = ctx.effects(prog)
@@ -65,6 +102,8 @@ def run(ctx, chk):
                           "count, indefinite -> indefinite constructor; integers/floats by builder and getter of one width; "
                           "negative integers re-marked; tag number passed through; members copied in storage order")
     chk.rule("C11.exhaustive", "the copy switch has an arm for every cbor_type")
+    chk.rule("C11.well-formed", "the copy is a well-formed container that can be modified afterwards: whenever cbor_copy (helpers inlined) "
+                                "installs a freshly (re)allocated block as storage, the capacity field is written with it")
     chk.not_decided += ["byte-equality of the two serializations as an executed fact (follows from shape + C03 by induction)",
                         "failure arms are decided under C06"]
     T = prog.enum("cbor_type")
@@ -118,11 +157,35 @@ def run(ctx, chk):
                        key="%s:ret:%d" % (name, k), detail="" if not is_d(r) else "returns a pointer into the source tree")
     chk.floor("C11.fresh-insert", "insertions on paths", nins, 10)
 
+    # ---- representation invariant of what is returned (shared with C12.capacity-field)
+    from props.c12 import check_capacity_field
+    check_capacity_field(chk, "C11.well-formed", prog, eff, cache, floor=8)
+
+    # ---- totality: NULL only because something that can fail did fail
+    chk.rule("C11.total", "cbor_copy (and the unit-internal helpers it is split into) gives up - returns NULL / false - only on a path on "
+                          "which a callee that can fail (a constructor, builder, nested copy, insertion) is known to have failed, or "
+                          "for a type value outside the enumeration: every well-formed tree can be copied, memory permitting")
+    check_total(chk, "C11.total", prog, eff, cache, CS)
+
     # ---- balance
     check_balance(chk, "C11.balance", prog, eff, cache, N, B, ctors, fnames=SUBJECTS, floor=8)
 
     # ---- shape
-    f = prog.fn("cbor_copy")
+    # the routine that dispatches on the type: cbor_copy itself, or - when cbor_copy is a thin wrapper - the
+    # unit-internal routine it hands its argument to (followed through at most three wrappers)
+    MAIN = "cbor_copy"
+    for _w in range(3):
+        ps_ = cache.get(MAIN, inline_static=True)
+        if len(ps_) == 1 and isinstance(ps_[0].ret, tuple) and ps_[0].ret[0] == "call" and ps_[0].ret[1] in prog.funcs and \
+                prog.funcs[ps_[0].ret[1]].internal:
+            ev_ = [e for e in ps_[0].events if e.kind == "call" and e.res == ps_[0].ret]
+            if ev_ and ev_[0].args and ev_[0].args[0] == SRC:
+                MAIN = ps_[0].ret[1]
+                continue
+        break
+    COPY_CALLS = {"cbor_copy", MAIN}
+    chk.extra["copy_dispatch_routine"] = MAIN
+    f = prog.fn(MAIN)
     where = "%s:%d" % (f.file, f.line)
     seen = set()
 
@@ -142,7 +205,7 @@ def run(ctx, chk):
         T["CBOR_TYPE_MAP"]: dict(pred="cbor_map_is_definite", new_def="cbor_new_definite_map", count="cbor_map_size",
                                  new_indef="cbor_new_indefinite_map", ins="cbor_map_add"),
     }
-    for k, pa in enumerate(cache.get("cbor_copy", inline_static=True)):
+    for k, pa in enumerate(cache.get(MAIN, inline_static=True)):
         tys_, _iw, _fw, fl_ = CS.summary(f, pa, SRC)
         ty = sorted(tys_)
         if len(ty) != 1:
@@ -157,7 +220,7 @@ def run(ctx, chk):
             pass   # leaf arms are decided on the state of the returned item (below)
         elif t == T["CBOR_TYPE_TAG"]:
             bt = [e for e in calls if e.callee == "cbor_build_tag"]
-            cp = [e for e in calls if e.callee == "cbor_copy"]
+            cp = [e for e in calls if e.callee in COPY_CALLS]
             ok = len(bt) == 1 and len(cp) == 1 and getter_call(pa, bt[0].args[0], "cbor_tag_value") and bt[0].args[1] == cp[0].res and pa.ret == bt[0].res
             if ok:
                 src = cp[0].args[0]
@@ -187,7 +250,7 @@ def run(ctx, chk):
                 chk.ob("C11.shape", inst + " indefinite: %s()" % sp["new_indef"], ok, where, fn=f.name, key="shape:indef:%d:%d" % (t, k))
             # members: every insertion goes into the new container, in source order
             ins = [e for e in calls if e.callee == sp["ins"]]
-            cps = [e for e in calls if e.callee == "cbor_copy"]
+            cps = [e for e in calls if e.callee in COPY_CALLS]
             okm = all(e.args[0] == ctor[0].res for e in ins) if ctor else False
             if t == T["CBOR_TYPE_MAP"]:
                 okm = okm and all(len(cps) >= 2 and e.args[1] == cps[2 * i].res and e.args[2] == cps[2 * i + 1].res for i, e in enumerate(ins))
@@ -210,10 +273,10 @@ def run(ctx, chk):
     IW = prog.enum("cbor_int_width")
     FW = prog.enum("cbor_float_width")
     off_ = {m["name"]: m["offset_bits"] // 8 for m in prog.struct_members("cbor_item_t")}
-    helpers = {n for n in prog.funcs if prog.funcs[n].internal and prog.funcs[n].unit == f.unit and n.startswith("_cbor_copy")}
+    helpers = O.static_callees(prog, eff, MAIN)
     seen_leaf = set()
     nleaf = 0
-    for k, rs in enumerate(tables.result_states(prog, eff, "cbor_copy", extra_inline=helpers)):
+    for k, rs in enumerate(tables.result_states(prog, eff, MAIN, extra_inline=helpers)):
         pa, d = rs["path"], rs["desc"]
         tys_, iw_, fw_, _fl = CS.summary(f, pa, SRC)
         ty = sorted(tys_)
